@@ -1,6 +1,7 @@
 import Proofs.RdataTextName
 import Proofs.RdataTextB64
 import Proofs.RdataTextIP6e
+import Proofs.RdataTextUtf8
 /-! Records: fields joined by spaces, tails, and the schema-generic round trip through `dns.rdata.from_text` (C05). -/
 namespace Model
 
@@ -115,13 +116,13 @@ theorem blob_tail (codec_enc : Bytes → List Nat) (codec_dec : List Nat → Opt
   intro ch hch c hcc
   exact hpl c ((wordbreakChunks_mem _ chunk ch hch).2 c hcc)
 
-theorem parseTxt_quoted (ss : List Bytes) (h : ∀ s ∈ ss, (∀ c ∈ s, c < 256) ∧ s.length ≤ 255) :
-    parseTxt (ss.map fun s => ⟨.quoted, escapifyR s⟩) = some ss := by
+theorem parseTxt_quoted (E : Bytes → List Nat) (ss : List Bytes)
+    (h : ∀ s ∈ ss, unescapeBytes (E s) = some s ∧ s.length ≤ 255) :
+    parseTxt (ss.map fun s => ⟨.quoted, E s⟩) = some ss := by
   induction ss with
   | nil => rfl
   | cons s rest ih =>
-    obtain ⟨ho, hl⟩ := h s (by simp)
-    have hu : unescapeBytes (escapifyR s) = some s := unescapeBytes_escapify _ escROk_generated s ho
+    obtain ⟨hu, hl⟩ := h s (by simp)
     have hle : ¬ s.length > 255 := by omega
     simp [parseTxt, hu, ih (fun x hx => h x (by simp [hx])), hle]
 
@@ -150,29 +151,30 @@ theorem tail_rt (st : Style) (tk : TK) (tail : Option FV) (h : TailOk st tk tail
     simp [parseTail, hcat, b64_roundtrip d hd]
   case txt.some.bl ss =>
     obtain ⟨hne, hs⟩ := h
-    have hesc := escROk_generated
-    -- one quoted token per string
-    have hitems : ∀ p ∈ ss.map (fun s => (quote (escapifyR s), [(⟨.quoted, escapifyR s⟩ : Tok)])), Lexes p.1 p.2 := by
+    -- one quoted token per string, in the octet or the Unicode form (`txt_is_utf8`)
+    let E : Bytes → List Nat := fun s => txtElement st.txtUtf8 ConstsC05.unicodeEscaped Consts.rdataEscaped s
+    have hE : ∀ s ∈ ss, quoteBody (E s) = true ∧ unescapeBytes (E s) = some s :=
+      fun s hsm => txtElement_rt st.txtUtf8 s (hs s hsm).1
+    have hitems : ∀ p ∈ ss.map (fun s => (quote (E s), [(⟨.quoted, E s⟩ : Tok)])), Lexes p.1 p.2 := by
       intro p hp
-      simp at hp
+      simp only [List.mem_map] at hp
       obtain ⟨s, hsm, rfl⟩ := hp
-      have := lexes_quoted (escapifyR s) (quoteBody_escapify _ hesc s (hs s hsm).1)
+      have := lexes_quoted (E s) (hE s hsm).1
       simpa [quote] using this
-    have hlex := lexes_joinSep _ hitems
-    simp only [List.map_map] at hlex
-    have e1 : (ss.map (fun s => (quote (escapifyR s), [(⟨.quoted, escapifyR s⟩ : Tok)]))).map (·.1)
-        = ss.map fun s => quote (escapifyR s) := by simp
-    have e2 : (ss.map (fun s => (quote (escapifyR s), [(⟨.quoted, escapifyR s⟩ : Tok)]))).flatMap (·.2)
-        = ss.map fun s => (⟨.quoted, escapifyR s⟩ : Tok) := by
+    have e1 : (ss.map (fun s => (quote (E s), [(⟨.quoted, E s⟩ : Tok)]))).map (·.1) = ss.map fun s => quote (E s) := by
+      simp
+    have e2 : (ss.map (fun s => (quote (E s), [(⟨.quoted, E s⟩ : Tok)]))).flatMap (·.2)
+        = ss.map fun s => (⟨.quoted, E s⟩ : Tok) := by
       simp only [List.flatMap_map]
-      exact flatMap_singleton_map (fun s => (⟨.quoted, escapifyR s⟩ : Tok)) ss
-    refine ⟨[(joinSep [32] (ss.map fun s => quote (escapifyR s)), ss.map fun s => (⟨.quoted, escapifyR s⟩ : Tok))],
-      by simp [printTail], ?_, ?_, ?_⟩
-    · intro p hp; simp at hp; subst hp
+      exact flatMap_singleton_map (fun s => (⟨.quoted, E s⟩ : Tok)) ss
+    refine ⟨[(joinSep [32] (ss.map fun s => quote (E s)), ss.map fun s => (⟨.quoted, E s⟩ : Tok))],
+      by simp [printTail, E], ?_, ?_, ?_⟩
+    · intro p hp; simp only [List.mem_singleton] at hp; subst hp
       have := lexes_joinSep _ hitems
       rw [e1, e2] at this; exact this
     · have hne' : ss ≠ [] := hne
-      simp [parseTail, parseTxt_quoted ss hs, hne']
+      have hp := parseTxt_quoted E ss (fun s hsm => ⟨(hE s hsm).2, (hs s hsm).2⟩)
+      simp [parseTail, hp, hne']
     · intro t ht
       cases ss with
       | nil => exact absurd rfl hne
